@@ -197,7 +197,7 @@ func (p *Profile) GenesisFromState(a *App, st M) *GenesisInput {
 		o := &marketapi.SellOrder{Id: uint64(num(r, "id")), Seller: Addr(str(r, "seller")), BatchKey: uint64(num(r, "bk")), Quantity: amt(r, "qty"),
 			MarketId: uint64(num(r, "mid")), AskAmount: fmt.Sprint(num(r, "ask")), DisableAutoRetire: boolean(r, "dar"), Maker: boolean(r, "maker")}
 		if e := sub(r, "exp"); boolean(e, "set") {
-			o.Expiration = tickTS(num(e, "t"))
+			o.Expiration = timestamppb.New(MarketTime(int(num(e, "t"))))
 		}
 		rs = append(rs, o)
 	}
@@ -217,7 +217,7 @@ func (p *Profile) GenesisFromState(a *App, st M) *GenesisInput {
 
 	bz, err := json.Marshal(g.out)
 	must(err)
-	gi := &GenesisInput{Ecocredit: bz, Data: a.DefaultDataGenesis(), Time: TickTime(int(num(st, "now")))}
+	gi := &GenesisInput{Ecocredit: bz, Data: a.DefaultDataGenesis(), Time: MarketTime(int(num(st, "now")))}
 	for _, r := range rows(st, "coins") {
 		d := str(r, "d")
 		n := big.NewInt(num(r, "n"))
